@@ -55,3 +55,11 @@ def run(ctx):
     ctx.floor("S4", 8)
     ctx.floor("E9", 1)
     ctx.floor("E10", 7)
+    E.e13_reverse_switch_read_live(ctx)
+    ctx.floor("E13", 2)
+    E.e14_every_bucket_minimised(ctx)
+    ctx.floor("E14", 1)
+    from ..engines import tablemethod as FT
+    FT.f2_initial_shifts(ctx)
+    FT.f3_gap_size(ctx)
+    ctx.floor("F2", 4)
